@@ -420,8 +420,9 @@ bool comp_add_to_dc(zckCtx *zck, zckComp *comp, const char *src,
                 (long long unsigned) comp->dc_data_loc);
     zck_log(ZCK_LOG_DEBUG, "Adding %llu bytes to decompressed buffer",
             (long long unsigned) src_size);
-    memcpy(temp, comp->dc_data + comp->dc_data_loc,
-           comp->dc_data_size - comp->dc_data_loc);
+    if(comp->dc_data)
+        memcpy(temp, comp->dc_data + comp->dc_data_loc,
+               comp->dc_data_size - comp->dc_data_loc);
     free(comp->dc_data);
     comp->dc_data_size -= comp->dc_data_loc;
     comp->dc_data_loc = 0;
